@@ -13,7 +13,9 @@ From Coq Require Export List NArith Bool.
 Export ListNotations.
 Open Scope N_scope.
 
-Record req := { q_id : nat; q_rem : N; q_done : bool }.
+(* q_stop is a history variable: the remaining duration when Shutdown was called (0 before, and for
+   requests already finished then); it influences no step *)
+Record req := { q_id : nat; q_rem : N; q_done : bool; q_stop : N }.
 
 Record dstate := {
   now : N;
@@ -46,14 +48,19 @@ Fixpoint finish (i : nat) (l : list req) : option (list req) :=
   | r :: t =>
     if Nat.eqb (q_id r) i
     then if negb (q_done r) && N.eqb (q_rem r) 0
-         then Some ({| q_id := i; q_rem := 0; q_done := true |} :: t) else None
+         then Some ({| q_id := i; q_rem := 0; q_done := true; q_stop := q_stop r |} :: t) else None
     else match finish i t with Some t' => Some (r :: t') | None => None end
   end.
 (* every in-flight request has at least d left *)
 Definition can_wait (d : N) (l : list req) : bool :=
   forallb (fun r => q_done r || (d <=? q_rem r)) l.
 Definition age (d : N) (l : list req) : list req :=
-  map (fun r => if q_done r then r else {| q_id := q_id r; q_rem := q_rem r - d; q_done := false |}) l.
+  map (fun r => if q_done r then r
+                else {| q_id := q_id r; q_rem := q_rem r - d; q_done := false; q_stop := q_stop r |}) l.
+(* Shutdown is called: remember what every request still needs *)
+Definition mark (l : list req) : list req :=
+  map (fun r => {| q_id := q_id r; q_rem := q_rem r; q_done := q_done r;
+                   q_stop := if q_done r then 0 else q_rem r |}) l.
 
 Section Drain.
   Variable drain : N.   (* DrainTimeout, ms *)
@@ -66,7 +73,8 @@ Section Drain.
     match l with
     | DNewReq i d =>
       if bound s && negb (has_id i (reqs s))
-      then Some {| now := now s; bound := bound s; reqs := {| q_id := i; q_rem := d; q_done := false |} :: reqs s;
+      then Some {| now := now s; bound := bound s;
+                   reqs := {| q_id := i; q_rem := d; q_done := false; q_stop := 0 |} :: reqs s;
                    last_done := last_done s; sd_start := sd_start s; sd_ret := sd_ret s; refused := refused s |}
       else None
     | DTick d =>
@@ -88,7 +96,7 @@ Section Drain.
       end
     | DShutStart =>
       match sd_start s with
-      | None => Some {| now := now s; bound := false; reqs := reqs s; last_done := last_done s;
+      | None => Some {| now := now s; bound := false; reqs := mark (reqs s); last_done := last_done s;
                         sd_start := Some (now s); sd_ret := None; refused := refused s |}
       | Some _ => None
       end
